@@ -17,6 +17,20 @@ ENV = dict(os.environ, ASAN_OPTIONS='detect_leaks=0:abort_on_error=0', UBSAN_OPT
 # ------------------------------------------------------------------------------------------------ generator
 from gen_churn14 import PRELUDE, CHURN, churn_program
 
+TRAP_HELPERS = '''fn deep_get2(a: array<string>, i: int, keepalive: P) -> string {
+    let local: array<string> = a
+    return (at local i)
+}
+fn deep_get(a: array<string>, i: int) -> string {
+    let p: P = (mkp "dg" [1, 2])
+    return (deep_get2 a i p)
+}
+fn deep_set(a: array<string>, i: int, v: string) -> int {
+    let t: (string, int) = (v, i)
+    (array_set a i (+ v t.0))
+    return (array_length a)
+}
+'''
 STR_POOL = ['"a"', '"b"', '"ab"', '"alpha"', '"t1"', '""', '"x"', '"xy"']
 TYPES = {'int': 'int', 'str': 'string', 'ai': 'array<int>', 'as': 'array<string>', 'aai': 'array<array<int>>',
          'P': 'P', 'Q': 'Q', 'T': '(string, int)', 'U': 'Shape', 'F': 'fn(int) -> int'}
@@ -26,7 +40,7 @@ class Gen:
     """Random, type-correct nano programs biased towards aliasing of heap objects."""
     def __init__(self, rng, leaky):
         self.rng = rng
-        self.leaky = leaky           # allow constructs with a known leak (remove_at, out-of-range set, fn-value calls)
+        self.leaky = leaky           # richer construct set (remove_at, fn-value calls) + a trapping statement at the end of main
         self.n = 0
         self.feat = collections.Counter()
 
@@ -117,7 +131,6 @@ class Gen:
         out = []
         if k < 30:
             ty = r.choice(['str', 'ai', 'as', 'P', 'Q', 'T', 'U', 'aai', 'int', 'ai', 'str'])
-            if ty == 'F' and not self.leaky: ty = 'ai'
             n = self.fresh()
             mut = r.random() < 0.5
             out.append('%slet %s%s: %s = %s' % (pad, 'mut ' if mut else '', n, TYPES[ty], self.expr(env, ty)))
@@ -159,7 +172,7 @@ class Gen:
             el = {'ai': 'int', 'as': 'str', 'aai': 'ai'}[ty]
             if v:
                 i = r.randrange(0, 3)
-                if self.leaky and r.random() < 0.15: i = 9                       # out of range: vm_array_set ignores it
+                if False: pass
                 else: out.append('%sif (> (array_length %s) %d) {' % (pad, v, i))
                 out.append('%s    (array_set %s %d %s)' % (pad, v, i, self.expr(env, el)))
                 if i != 9: out.append('%s} else {\n%s    (println 1)\n%s}' % (pad, pad, pad))
@@ -174,13 +187,13 @@ class Gen:
                 out.append('%s    let %s: %s = (array_pop %s)' % (pad, n, TYPES[el], v))
                 out.append('%s} else {\n%s    (println 2)\n%s}' % (pad, pad, pad))
                 self.feat['apop:' + ty] += 1
-        elif k < 76 and self.leaky:
+        elif k < 76:
             ty = r.choice(['as', 'aai', 'ai'])
             v = self.pick(env, ty, mut=True)
             if v:
                 out.append('%sset %s (array_remove_at %s %d)' % (pad, v, v, r.randrange(0, 2)))
                 self.feat['aremove:' + ty] += 1
-        elif k < 79 and self.leaky:
+        elif k < 79:
             n = self.fresh('f')
             out.append('%slet %s: fn(int) -> int = dbl' % (pad, n))
             out.append('%slet %s: int = (%s %s)' % (pad, self.fresh(), n, self.expr(env, 'int')))
@@ -238,7 +251,32 @@ class Gen:
                 n = self.fresh('w')
                 body.append('    let %s: array<string> = (work %s %s %s)' % (n, self.expr(env, 'ai'), self.expr(env, 'str'), self.expr(env, 'P')))
                 env.append((n, 'as', False))
-        return PRELUDE + work + 'fn main() -> int {\n' + '\n'.join(body) + '\n    return 0\n}\n'
+        if self.leaky:
+            body += self.trap_ender(env)
+        return PRELUDE + TRAP_HELPERS + work + 'fn main() -> int {\n' + '\n'.join(body) + '\n    return 0\n}\n'
+
+    def trap_ender(self, env):
+        """a last statement that makes the VM trap with references in flight: out-of-range get / set / remove (index past the
+        end, negative, or 2^32 + small which is in range after a 32-bit narrowing), pop of an empty array; in main or two frames down"""
+        r = self.rng
+        ty = r.choice(['as', 'aai', 'ai', 'as'])
+        el = {'ai': 'int', 'as': 'str', 'aai': 'ai'}[ty]
+        a = self.pick(env, ty)
+        if not a:
+            a = self.fresh(); pre = ['    let mut %s: %s = %s' % (a, TYPES[ty], self.expr(env, ty))]
+        else:
+            pre = []
+        idx = r.choice(['99', '(array_length %s)' % a, '-1', '4294967296', '(+ 4294967296 (array_length %s))' % a])
+        k = r.randrange(6)
+        self.feat['trap_ender:%d' % k] += 1
+        if k == 0: return pre + ['    let %s: %s = (at %s %s)' % (self.fresh(), TYPES[el], a, idx)]
+        if k == 1: return pre + ['    (array_set %s %s %s)' % (a, idx, self.expr(env, el))]
+        if k == 2: return pre + ['    let %s: %s = (array_remove_at %s %s)' % (self.fresh(), TYPES[ty], a, idx)]
+        if k == 3:
+            e = self.fresh()
+            return ['    let mut %s: array<string> = []' % e, '    let %s: string = (array_pop %s)' % (self.fresh(), e)]
+        if k == 4: return ['    let %s: string = (deep_get %s %s)' % (self.fresh(), self.expr(env, 'as'), idx.replace(a, 'g_names'))]
+        return ['    let %s: int = (deep_set %s %s %s)' % (self.fresh(), self.expr(env, 'as'), idx.replace(a, 'g_names'), self.expr(env, 'str'))]
 
 
 # ------------------------------------------------------------------------------------------------ bytecode generator
@@ -247,7 +285,11 @@ class AsmGen:
     emits: STRUCT_SET, STRUCT_NEW, ROT3/SWAP/DUP over references, an array pushed into itself, stores over the popped slot,
     CLOSURE_CALL / CALL_INDIRECT of closures with captures, LOAD/STORE_UPVALUE, nested calls."""
     def __init__(self, rng, leaky):
-        self.r = rng; self.leaky = leaky; self.feat = collections.Counter()
+        self.r = rng; self.leaky = leaky; self.feat = collections.Counter(); self.nl = 0
+
+    def label(self):
+        self.nl += 1
+        return 'L%d' % self.nl
 
     def body(self, nloc, n_ops, can_call):
         r = self.r
@@ -285,20 +327,45 @@ class AsmGen:
             elif k < 59 and top == 'a':
                 emit('DUP'); emit('ARR_PUSH'); self.feat['self_push'] += 1           # array pushed into itself: a cycle
             elif k < 63 and top == 'a':
-                emit('ARR_POP'); st.pop(); st += ['?', 'a']; self.feat['arr_pop'] += 1
+                # out of range now traps: guard on the length (both branches leave [?, a]); sometimes unguarded on purpose
+                if r.random() < 0.06:
+                    emit('ARR_POP'); self.feat['arr_pop_unguarded'] += 1
+                else:
+                    la, lb = self.label(), self.label()
+                    emit('DUP'); emit('ARR_LEN'); emit('PUSH_I64 0'); emit('GT'); emit('JMP_FALSE %s' % la)
+                    emit('ARR_POP'); emit('JMP %s' % lb); out.append(la + ':'); emit('PUSH_VOID'); emit('SWAP'); out.append(lb + ':')
+                st.pop(); st += ['?', 'a']; self.feat['arr_pop'] += 1
             elif k < 68 and top == 'a':
-                emit('PUSH_I64 %d' % r.randrange(3)); emit('ARR_GET'); st.pop(); st.append('?'); self.feat['arr_get'] += 1
+                j = r.randrange(3)
+                if r.random() < 0.06:
+                    emit('PUSH_I64 %s' % r.choice(['7', '-1', '4294967296'])); emit('ARR_GET'); self.feat['arr_get_unguarded'] += 1
+                else:
+                    la, lb = self.label(), self.label()
+                    emit('DUP'); emit('ARR_LEN'); emit('PUSH_I64 %d' % j); emit('GT'); emit('JMP_FALSE %s' % la)
+                    emit('PUSH_I64 %d' % j); emit('ARR_GET'); emit('JMP %s' % lb); out.append(la + ':'); emit('POP'); emit('PUSH_VOID'); out.append(lb + ':')
+                st.pop(); st.append('?'); self.feat['arr_get'] += 1
             elif k < 72 and len(st) >= 2 and st[-2] == 'a':
-                v = st.pop()
-                if self.leaky or True:
-                    # ARR_SET wants arr idx v: rebuild the order with the value on top
-                    emit('PUSH_I64 %d' % r.randrange(2)); emit('SWAP'); emit('ARR_SET' if self.leaky else 'POP')
-                    if not self.leaky: emit('POP'); st.pop()
+                st.pop()
+                j = r.randrange(2)
+                # stack [.. a v]; ARR_SET wants a idx v; both branches leave [a]
+                if r.random() < 0.06:
+                    emit('PUSH_I64 %s' % r.choice(['7', '-1', '4294967296'])); emit('SWAP'); emit('ARR_SET'); self.feat['arr_set_unguarded'] += 1
+                else:
+                    la, lb = self.label(), self.label()
+                    emit('SWAP'); emit('DUP'); emit('ARR_LEN'); emit('PUSH_I64 %d' % j); emit('GT'); emit('JMP_FALSE %s' % la)
+                    emit('SWAP'); emit('PUSH_I64 %d' % j); emit('SWAP'); emit('ARR_SET'); emit('JMP %s' % lb)
+                    out.append(la + ':'); emit('SWAP'); emit('POP'); out.append(lb + ':')
                 self.feat['arr_set'] += 1
             elif k < 74 and top == 'a':
                 emit('PUSH_I64 0'); emit('PUSH_I64 %d' % r.randrange(3)); emit('ARR_SLICE'); self.feat['slice'] += 1
-            elif k < 76 and top == 'a' and self.leaky:
-                emit('PUSH_I64 0'); emit('ARR_REMOVE'); self.feat['remove'] += 1
+            elif k < 76 and top == 'a':
+                if r.random() < 0.06:
+                    emit('PUSH_I64 %s' % r.choice(['7', '-1', '4294967296'])); emit('ARR_REMOVE'); self.feat['remove_unguarded'] += 1
+                else:
+                    la = self.label()
+                    emit('DUP'); emit('ARR_LEN'); emit('PUSH_I64 0'); emit('GT'); emit('JMP_FALSE %s' % la)
+                    emit('PUSH_I64 0'); emit('ARR_REMOVE'); out.append(la + ':')
+                self.feat['remove'] += 1
             elif k < 82:
                 n = r.randrange(0, min(3, len(st)) + 1)
                 kind = r.choice(['S', 'T', 'U', 'L', 'C'])
@@ -311,7 +378,7 @@ class AsmGen:
                 self.feat['construct:' + kind] += 1
                 if kind == 'S' and n > 0 and r.random() < 0.5:
                     push_any(); st.pop(); emit('STRUCT_SET %d' % r.randrange(n)); self.feat['struct_set'] += 1
-                if kind == 'C' and can_call and self.leaky and r.random() < 0.7:
+                if kind == 'C' and can_call and r.random() < 0.5:
                     emit('DUP'); emit('PUSH_I64 1'); emit('SWAP'); emit(r.choice(['CALL_INDIRECT', 'CLOSURE_CALL'])); st.append('?')
                     self.feat['closure_call'] += 1
             elif k < 87 and isinstance(top, tuple) and top[0] in 'STU' and top[1] > 0:
@@ -321,7 +388,7 @@ class AsmGen:
                 j = r.randrange(st[-2][1]); st.pop(); emit('STRUCT_SET %d' % j); self.feat['struct_set'] += 1
             elif k < 94 and len(st) >= 2 and st[-1] == 's' and st[-2] == 's':
                 emit(r.choice(['STR_CONCAT', 'ADD', 'EQ', 'STR_EQ'])); st.pop(); st.pop(); st.append('s'); st[-1] = '?'
-            elif k < 97 and can_call and isinstance(top, tuple) and top[0] == 'c' and self.leaky:
+            elif k < 97 and can_call and isinstance(top, tuple) and top[0] == 'c':
                 # call the closure (function 1: arity 1): argument below the closure
                 emit('PUSH_I64 1'); emit('SWAP'); emit(r.choice(['CALL_INDIRECT', 'CLOSURE_CALL'])); st.pop(); st.append('?')
                 self.feat['closure_call'] += 1
@@ -423,7 +490,12 @@ def model_run(ref, steps):
     return out[1:]
 
 
-def compare(steps, mout, vm_error):
+# opcodes all of whose trap conditions are visible to the model (operand kinds, index / field / local ranges)
+COMPLETE_TRAP_OPS = {'ARR_PUSH', 'ARR_POP', 'ARR_GET', 'ARR_SET', 'ARR_REMOVE', 'ARR_SLICE', 'STRUCT_GET', 'STRUCT_SET', 'UNION_FIELD',
+                     'TUPLE_GET', 'STR_CONCAT', 'LOAD_LOCAL', 'STORE_LOCAL', 'LOAD_GLOBAL', 'STORE_GLOBAL'}
+
+
+def compare(steps, mout, vm_error, err_msg=''):
     """-> (n_compared, mismatch or None, unsupported or None)."""
     n = 0
     prev_ex = 0
@@ -436,9 +508,9 @@ def compare(steps, mout, vm_error):
         if s.live is None:
             return n, dict(step=s.i, op=s.op, what='no state line from the probe', iline=s.iline), None
         f = m.split()
-        ms, mf, mleak, minv, mexact = int(f[1]), int(f[2]), int(f[3]), int(f[4]), int(f[5])
+        ms, mf, mleak, minv, mexact, mtrap = int(f[1]), int(f[2]), int(f[3]), int(f[4]), int(f[5]), int(f[6])
         mlive = {}
-        for t in f[6:]:
+        for t in f[7:]:
             o, tag, rc, ind = t.split(':')
             mlive[int(o)] = (int(tag), int(rc), int(ind))
         last = k == len(real) - 1
@@ -451,7 +523,13 @@ def compare(steps, mout, vm_error):
                 if rt != mt: bad = 'object %d tag real=%d model=%d' % (o, rt, mt); break
                 if rrc != mrc: bad = 'object %d ref_count real=%d model=%d (%s)' % (o, rrc, mrc, 'real<model' if rrc < mrc else 'real>model'); break
                 if rind != mind: bad = 'object %d in-degree real=%d model=%d' % (o, rind, mind); break
-        if bad is None and not (last and vm_error) and (ms != s.stack or mf != s.frames):
+        # trap behaviour: a model trap is terminal on the real VM; for the opcodes whose trap conditions the model sees
+        # completely, a real trap at that opcode must be a model trap
+        if bad is None and mtrap == 1 and not (last and vm_error):
+            bad = 'model says the opcode traps, the real VM went on'
+        if bad is None and last and vm_error and mtrap == 0 and s.op in COMPLETE_TRAP_OPS and 'budget exhausted' not in err_msg:
+            bad = 'real VM trapped (%s), the model does not' % err_msg[:60]
+        if bad is None and not (last and vm_error and mtrap == 0) and (ms != s.stack or mf != s.frames):
             bad = 'stack/frames real=%d/%d model=%d/%d' % (s.stack, s.frames, ms, mf)
         if bad is None and minv == 0:
             bad = 'model invariant false'
@@ -480,6 +558,7 @@ class Runner:
         self.ops = collections.Counter()
         self.leak_ops = collections.Counter()
         self.unsupported = collections.Counter()
+        self.traps = collections.Counter()
 
     def one(self, name, src_text, asan=False, max_steps=20000, src_path=None):
         """compile + trace + model.  -> dict.  Text starting with '.' is NanoISA assembly, anything else nano source.
@@ -514,7 +593,8 @@ class Runner:
         except Exception as ex:
             res['model_exc'] = str(ex)[-500:]
             mout = []
-        res['compared'], res['mismatch'], res['unsupported'] = compare(steps, mout, res['vm_error'])
+        res['err_msg'] = (el[-1].split(None, 5)[-1] if el and len(el[-1].split(None, 5)) > 5 else '') if res['vm_error'] else ''
+        res['compared'], res['mismatch'], res['unsupported'] = compare(steps, mout, res['vm_error'], res['err_msg'])
         return res
 
 
@@ -550,6 +630,10 @@ def judge(ck, R, res, src_text, kind):
         failed = True
     if res['x']:
         R.stats['implicit-ret'] += 1
+    if res.get('vm_error') and steps:
+        lastreal = [s for s in steps if s.op != 'DESTROY']
+        if lastreal:
+            R.traps['%s: %s' % (lastreal[-1].op, re.sub(r'-?[0-9]+', 'N', res.get('err_msg', ''))[:50])] += 1
     for (st, op, grown) in res['leaks']:
         R.leak_ops[op] += 1
         ck.fail('c14:leak:' + op, 'ref_count exceeds in-degree after %s (reference forgotten without release)' % op,
@@ -672,11 +756,12 @@ def run(ck):
             ck.proof['broken'].append('coqchk NV.Props.Properties_C14')
     ck.cov['rule'] = ('generated nano programs (helpers returning arguments through 3 frames, struct-in-struct, union+match, tuples, '
                       'globals, string pool of 8 literals so equal strings are interned repeatedly, same array bound to several '
-                      'locals / pushed twice / stored in structs, values dropped in while loops) compiled by nano_virt --emit-nvm and run '
+                      'locals / pushed twice / stored in structs, values dropped in while loops; two thirds end in a trapping array operation - index past the end, '
+                      'negative, 2^32+k, pop of an empty array - in main or two frames down) compiled by nano_virt --emit-nvm and run '
                       'in-process; every instruction boundary is one evaluation; non-trivial program = >= 3 allocation/free events and '
                       '> 20 instructions; distinct = distinct program text')
     ck.extra.update(exhaustive=False, programs=len(progs), program_status=dict(R.stats), opcode_histogram=dict(R.ops.most_common()),
-                    leak_sites_seen=dict(R.leak_ops), model_unsupported=dict(R.unsupported),
+                    leak_sites_seen=dict(R.leak_ops), model_unsupported=dict(R.unsupported), trap_sites_seen=dict(R.traps.most_common()),
                     generator_features=dict(feats.most_common()), asan_fraction='1/%d of the generated programs run under the asan build of the probe' % asan_every)
     ck.trusted += ['probes/heap_trace.c (registry, in-degree audit, trace printer); hooks vm_verif_step_cb / vm_verif_heap_cb of the NANOLANG_VERIF build',
                    'extract/c14_driver.ml (parsing; opcode number -> model instruction constructor table)',
